@@ -16,6 +16,7 @@ mod c08;
 mod c09;
 mod c15;
 mod c16;
+mod c18;
 mod c19;
 mod c10;
 mod c11;
@@ -59,6 +60,7 @@ fn real_main() {
                 "C09" => c09::replay(&toks, &mut out),
                 "C14" | "C16" => c16::replay(&toks, &mut out),
                 "C15" | "C17" => c15::replay(&toks, &mut out),
+                "C18" => c18::replay(&toks, &mut out),
                 "C19" => c19::replay(&toks, &mut out),
                 "C10" => c10::replay(&toks, &mut out),
                 "C11" => c11::replay(&toks, &mut out),
@@ -83,6 +85,7 @@ fn real_main() {
             "C16" => c16::generate(&mut rng, thorough, &mut out, false),
             "C15" => c15::generate_pipes(&mut rng, thorough, &mut out),
             "C17" => c15::generate_arrays(&mut rng, thorough, &mut out),
+            "C18" => c18::generate(&mut rng, thorough, &mut out),
             "C19" => c19::generate(&mut rng, thorough, &mut out),
             "C10" => c10::generate(&mut rng, thorough, &mut out),
             "C11" => c11::generate(&mut rng, thorough, &mut out),
